@@ -44,6 +44,9 @@ def gen_regex(rng, depth=0):
         if depth < 2 and rng.random() < 0.2:
             a = '(' + gen_regex(rng, depth + 1) + ')'
         q = rng.choice(QUANT) if a not in ('^', '$') else ''
+        if a.startswith('(') and any(ch in a for ch in '*+{') and q not in ('', '?'):
+            # no quantified group around a quantifier: the re module itself backtracks exponentially on those
+            q = rng.choice(['', '?'])
         parts.append(a + q)
     s = ''.join(parts)
     if depth == 0 and rng.random() < 0.25:
